@@ -184,6 +184,21 @@ func (C12) Generate(c *Ctx, r *Rand, index int) *Scenario {
 		target = "conf/current.yaml"
 		sc.Meta["via_symlink"] = true
 	}
+	if !frontMatter && kinds[kind] == "ok" && sc.MetaString("name_class") == "" && !sc.MetaBool("hardlinked") && !sc.MetaBool("via_symlink") && rs.Chance(1, 14) {
+		// a volume with room for the file but not for a second copy of it: the target gets a long scalar and the
+		// working directory becomes a file system of its own (TMPDIR is then on another one by construction)
+		pad := rs.Range(48, 72) * 1024
+		if len(sc.Files[0].Docs) > 0 {
+			sc.Files[0].Docs[0] = strings.TrimRight(sc.Files[0].Docs[0], "\n") + "\npad: \"" + strings.Repeat("x", pad) + "\"\n"
+			pages := 4 // directory entries and slack
+			for i := range sc.Files {
+				pages += (len(sc.Files[i].Bytes()) + 4095) / 4096
+			}
+			pages += (len(sc.Files[0].Bytes())+4095)/4096/2 // room for half a second copy of the target
+			sc.DiskKiB = 4 * pages
+			sc.Meta["small_disk"] = true
+		}
+	}
 	sc.Argv = argv
 	sc.Meta["expr"] = expr
 	sc.Meta["family"] = exprE.Family
@@ -588,6 +603,9 @@ func (C12) Judge(c *Ctx, sc *Scenario) []Violation {
 	}
 	if crashed, how := out.Crashed(); crashed && !injectedPanic {
 		add("O12.0", "crash="+how, "yq -i crashed: "+firstLines(out.Stderr, 6))
+	}
+	if out.SmallDisk && !c.Quiet {
+		c.Count("probe.volume_without_room_for_a_second_copy")
 	}
 	if injectedPanic && !c.Quiet {
 		c.Count("probe.runtime_failure_unwound_through_the_in_place_finaliser")
